@@ -16,6 +16,13 @@ Record diag := mkD {
 (* lintResult: CheckedFiles, Diagnostics *)
 Record run := mkRun { r_checked : list string; r_diags : list diag }.
 
+(* lint(): CheckedFiles of a run = the GoFiles of the packages that were actually analysed:
+   named by the patterns (initial), loaded and type-checked (not failed), not skipped as too large *)
+Record pkgres := mkPk { pk_initial : bool; pk_failed : bool; pk_skipped : bool; pk_files : list string }.
+Definition analysed (p : pkgres) : bool := pk_initial p && negb (pk_failed p) && negb (pk_skipped p).
+Definition checked_of (ps : list pkgres) : list string :=
+  flat_map (fun p => if analysed p then pk_files p else []) ps.
+
 (* ---- the identity of a problem: (position, end, category, message) ---- *)
 Definition pos := (string * Z * Z * Z)%type.
 Definition descr := (pos * pos * string * string)%type.
